@@ -42,6 +42,7 @@ type spec struct {
 
 // parsed is the syntactic reading of a Range header value.
 type parsed struct {
+	raw       string
 	unit      string // text before the first '='
 	hasEq     bool
 	ok        bool   // lenient reading produced at least one spec and no unreadable element
@@ -81,7 +82,7 @@ func (p *parsed) number(s string) (int64, bool) {
 // unit); whatever is outside strict RFC 7233 grammar marks the header
 // ambiguous, which widens the set of accepted answers, never narrows it.
 func parseRange(h string) *parsed {
-	p := &parsed{}
+	p := &parsed{raw: h}
 	i := strings.IndexByte(h, '=')
 	if i < 0 {
 		p.unit, p.why = h, "no '='"
@@ -203,12 +204,18 @@ func (p *parsed) resolve(n int64) (sat []span, unsat int) {
 	return sat, unsat
 }
 
-const hugePos = int64(1) << 50
+// hugePos: positions from here on cannot be the size of any buffer (the Go
+// runtime refuses allocations beyond 2^48 bytes).
+const hugePos = int64(1) << 48
 
-// shape names the triggering shape of a header for signatures: the first
-// feature present, most syntactic first. It depends on the header and the
-// content length only, never on what the implementation answered.
-func (p *parsed) shape(n int64) string {
+// Shapes name the triggering shape of a header in signatures. They depend on
+// the header and the content length only, never on what the implementation
+// answered. Two views exist: the syntax of the header and where its positions
+// lie relative to the content; sigShape picks the one the failure class is
+// about, so that one defect does not fan out over unrelated features.
+
+// syntaxShape: the first syntactic peculiarity, or "plain".
+func (p *parsed) syntaxShape() string {
 	switch {
 	case strings.ToLower(p.unit) != "bytes" || !p.hasEq:
 		return "other-unit"
@@ -217,32 +224,12 @@ func (p *parsed) shape(n int64) string {
 	case p.overflow:
 		return "number-beyond-int64"
 	}
-	hasSuffix, startPast, endPast, huge := false, false, false, false
 	for _, s := range p.specs {
-		switch s.Kind {
-		case kindSuffix:
-			hasSuffix = true
-		case kindOpen:
-			if s.A >= hugePos {
-				huge = true
-			}
-			if s.A >= n {
-				startPast = true
-			}
-		case kindRange:
-			if s.A >= hugePos || s.B >= hugePos {
-				huge = true
-			}
-			if s.A >= n {
-				startPast = true
-			} else if s.B >= n {
-				endPast = true
-			}
+		if s.Kind == kindSuffix {
+			return "suffix"
 		}
 	}
 	switch {
-	case hasSuffix:
-		return "suffix"
 	case p.whitespace:
 		return "whitespace"
 	case p.emptyElem:
@@ -251,6 +238,28 @@ func (p *parsed) shape(n int64) string {
 		return "plus-sign"
 	case p.reversed:
 		return "reversed"
+	}
+	return "plain"
+}
+
+// boundsShape: where the positions of a readable header lie.
+func (p *parsed) boundsShape(n int64) string {
+	startPast, endPast, huge := false, false, false
+	for _, s := range p.specs {
+		switch s.Kind {
+		case kindOpen:
+			huge = huge || s.A >= hugePos
+			startPast = startPast || s.A >= n
+		case kindRange:
+			huge = huge || s.A >= hugePos || s.B >= hugePos
+			if s.A >= n {
+				startPast = true
+			} else if s.B >= n {
+				endPast = true
+			}
+		}
+	}
+	switch {
 	case huge:
 		return "position-huge"
 	case startPast:
@@ -259,6 +268,43 @@ func (p *parsed) shape(n int64) string {
 		return "end-past-content"
 	}
 	return "inside"
+}
+
+// unitLettersStripped: the header is not a bytes range set, but what is left
+// after removing every leading character that occurs in "bytes=" reads as one
+// ("=0-1", "tes=0-1", "bytes==0-1", "1-2").
+func (p *parsed) unitLettersStripped() bool {
+	if p.ok {
+		return false
+	}
+	return parseRange("bytes=" + strings.TrimLeft(strings.ToLower(p.raw), "bytes=")).ok
+}
+
+// parseFailureClasses are about how the header was read, not about positions.
+var parseFailureClasses = map[string]bool{"error-leaves-200-without-content": true, "416-although-satisfiable": true}
+
+func (p *parsed) sigShape(class string, n int64) string {
+	syn := p.syntaxShape()
+	switch {
+	case !p.ok && !parseFailureClasses[class] && p.unitLettersStripped():
+		return "unit-letters-stripped"
+	case !p.ok:
+		return syn
+	case parseFailureClasses[class] && syn != "plain":
+		return syn
+	}
+	return p.boundsShape(n)
+}
+
+// shape is the label used in the class histogram: syntax first, then bounds.
+func (p *parsed) shape(n int64) string {
+	if syn := p.syntaxShape(); syn != "plain" || !p.ok {
+		if !p.ok && p.unitLettersStripped() {
+			return "unit-letters-stripped"
+		}
+		return syn
+	}
+	return p.boundsShape(n)
 }
 
 // nonTrivialRange is DESIGN's rule: an end >= len, a suffix or open-ended
@@ -352,6 +398,13 @@ func observe(res *http.Response, modify func(*http.Response) error, limit int64)
 
 var contentRangeRE = regexp.MustCompile(`^bytes ([0-9]+)-([0-9]+)/([0-9]+|\*)$`)
 
+func trunc(b []byte, n int) []byte {
+	if len(b) > n {
+		return b[:n]
+	}
+	return b
+}
+
 func allZero(b []byte) bool {
 	for _, x := range b {
 		if x != 0 {
@@ -372,11 +425,12 @@ func judge(who string, content []byte, h string, o obs) kit.Verdict {
 	var v kit.Verdict
 	n := int64(len(content))
 	p := parseRange(h)
-	shape := "no-range"
-	if h != "" {
-		shape = p.shape(n)
+	sig := func(class string) string {
+		if h == "" {
+			return "C20/" + who + "/no-range/" + class
+		}
+		return "C20/" + who + "/" + p.sigShape(class, n) + "/" + class
 	}
-	sig := func(class string) string { return "C20/" + who + "/" + shape + "/" + class }
 
 	if o.Panic != "" {
 		v.Addf(sig("panic"), "Range %q over %d bytes of content: panic: %s", h, n, o.Panic)
@@ -425,15 +479,15 @@ func judge(who string, content []byte, h string, o obs) kit.Verdict {
 		case h == "":
 			v.Addf(sig("206-without-range"), "206 for a request without Range")
 		case !p.valid():
-			class := "206-for-invalid-range"
-			if shape == "other-unit" {
-				class = "answered-as-bytes-range"
-			}
-			v.Addf(sig(class), "Range %q is not a bytes range set (%s), yet the answer is 206 with Content-Range %q", h, whyInvalid(p), o.Header.Get("Content-Range"))
+			v.Addf(sig("treated-as-bytes-range"), "Range %q is not a bytes range set (%s), yet the answer is 206 (Content-Range %q, Content-Type %q)", h, whyInvalid(p), o.Header.Get("Content-Range"), o.Header.Get("Content-Type"))
 		case len(sat) == 0:
 			v.Addf(sig("206-for-unsatisfiable-range"), "Range %q over %d bytes selects nothing, yet the answer is 206 with Content-Range %q, Content-Length %d, %s", h, n, o.Header.Get("Content-Range"), o.CL, describeBody(o))
 		default:
-			v = append(v, judge206(sig, content, h, p, sat, unsat, o)...)
+			w := judge206(sig, content, h, p, sat, unsat, o)
+			if len(w) > 0 && o.Err != nil {
+				w = kit.Failf(sig("error-leaves-206-without-ranges"), "Range %q over %d bytes: the modifier returned %q and left status 206 with Content-Range %q, Content-Length %d, %s", h, n, o.Err, o.Header.Get("Content-Range"), o.CL, describeBody(o))
+			}
+			v = append(v, w...)
 		}
 	default:
 		v.Addf(sig("status-unexpected"), "Range %q over %d bytes: status %d (error %v)", h, n, o.Status, o.Err)
@@ -552,6 +606,9 @@ func judgeRange(sig func(string) string, where string, content []byte, h string,
 	case len(body) > len(wantBody) && bytes.Equal(body[:len(wantBody)], wantBody) && allZero(body[len(wantBody):]):
 		*padded = true
 		v.Addf(sig("body-zero-padded"), "Range %q over %d bytes: %sthe %d selected bytes are followed by %d zero bytes that are not in the content", h, n, where, len(wantBody), len(body)-len(wantBody))
+	case len(body) > len(wantBody) && bytes.Equal(body[:len(wantBody)], wantBody):
+		*padded = true
+		v.Addf(sig("bytes-beyond-content-served"), "Range %q over %d bytes: %sthe %d selected bytes are followed by %d bytes that are not in the content (%q...)", h, n, where, len(wantBody), len(body)-len(wantBody), trunc(body[len(wantBody):], 8))
 	default:
 		v.Addf(sig("body-mismatch"), "Range %q over %d bytes: %sbody is not content[%d..%d]: %s", h, n, where, want.S, want.E, kit.Diff(wantBody, body))
 	}
